@@ -1645,15 +1645,21 @@ class VM:
         if isinstance(receiver, JSArray):
             return self._make_array_method(receiver, method)
         elements = None
-        if method in self._ARRAY_READERS:
+        if method == "concat":
+            # (only arrays are spread; anything else is one element)
+            elements = [receiver]
+        elif method in self._ARRAY_READERS:
             if isinstance(receiver, str):
                 elements = list(receiver)
             elif isinstance(receiver, JSTypedArray):
                 elements = [receiver.get_index(i) for i in range(receiver.length)]
+            elif isinstance(receiver, (bool, int, float)):
+                elements = []
             elif type(receiver) is JSObject:
                 length = receiver.get("length")
-                if isinstance(length, (int, float)) and not isinstance(length, bool):
-                    count = max(0, to_integer(length))
+                if not isinstance(length, JSObject):
+                    # ToLength of the length property (missing: 0)
+                    count = max(0, to_integer(to_number(length)))
                     if count > MAX_ARRAY_LENGTH:
                         raise JSRangeError("Invalid array length")
                     elements = [receiver.get(str(i)) for i in range(count)]
